@@ -211,8 +211,47 @@ def check_all(ctx, module_suffixes=None, funcs=None, rules=('DEADPARAM', 'FORWAR
         out['forwarded'] = swapped_forward(ctx, funcs)
     if 'SIB-DEFAULTS' in rules:
         out['defaults'] = default_agreement(ctx, funcs)
+    if 'FORWARD' in rules:
+        out['delegates'] = delegate_names(ctx, funcs)
     ctx.ok('FORWARD', f"option forwarding in {len(funcs)} functions",
            f"{out.get('params', 0)} parameters examined for use, {out.get('forwarded', 0)} arguments handed "
            f"down under a parameter name, {out.get('defaults', 0)} default pairs compared")
     ctx.floor('functions examined for option forwarding', len(funcs), 5)
     return out
+
+
+def delegate_names(ctx, funcs, rule='FORWARD'):
+    """
+    A thin wrapper `def X(self, ...): return self.<part>.Y(...)` whose
+    delegate class also has a method called X must delegate to X: calling the
+    sibling Y is a copy/paste slip (iter_to_list -> iter_to_dict).  Empty
+    baseline on the pinned tree.
+    """
+    by_class = {ci.name: set(ci.methods) for ci in ctx.repo.classes.values()}
+    n = 0
+    for fi in funcs:
+        if fi.cls is None or fi.outer is not None:
+            continue
+        body = [s for s in fi.node.body if not (isinstance(s, ast.Expr) and isinstance(s.value, ast.Constant))]
+        if not body:
+            continue
+        last = body[-1]
+        call = last.value if isinstance(last, (ast.Return, ast.Expr)) and isinstance(getattr(last, 'value', None), ast.Call) else None
+        if call is None:
+            continue
+        parts = (dotted(call.func) or '').split('.')
+        if len(parts) != 3 or parts[0] != 'self':
+            continue
+        x, y = fi.node.name, parts[2]
+        own = {fi.cls.name} | {b for b in getattr(fi.cls, 'bases', [])}
+        owners = [c for c, ms in by_class.items() if x in ms and y in ms and c not in own
+                  and not any(c == k.name for k in ctx.repo.classes.values() if fi.cls.name in getattr(k, 'bases', []))]
+        if not owners:
+            continue
+        n += 1
+        ctx.check(x == y, rule, f"{fi.qualname} delegates to the method of the same name",
+                  f"self.{parts[1]}.{y}(...)",
+                  f"`{norm(call)[:70]}`: {fi.qualname} hands over to `{y}` although {owners[0]} has a `{x}` of its own "
+                  f"(copy/paste from the sibling wrapper): callers get the other method's kind of result",
+                  key=f"{rule}|{fi.qualname}|delegate|{y}", where=common.loc(fi, call))
+    return n
